@@ -573,6 +573,68 @@ theorem concurrent_pull_during_verification_installs_missing_layer :
     (pull2 cfgF toyHash .during dA 0 regX scA 1 regX Scripts.honest st0).2.1 = .err .digestMismatch ∧
     (pull2 cfgF toyHash .during dA 0 regX scA 1 regX Scripts.honest st0).2.2.manifests = [] := by decide
 
+/-! ## Retry from resume state -/
+/-- the resume state a store may hold for the layers that are still missing: none, or what an interrupted / failed
+    single-part download leaves when the HEAD answer told the true length (`Resume1Ok`: data file of the blob's length
+    that agrees with the blob on the bytes the record counts as complete) -/
+def ResumeOk (st : Store) (reg : Registry) : Prop :=
+  ∀ l ∈ reg.manifest.all, ∀ d, l.digest = .ok d → st.blobs d = none → ∀ c, lookupC d reg.content = some c →
+    st.partials d = Partial.none ∨ Resume1Ok c (st.partials d)
+
+theorem CleanFor.resumeOk {st : Store} {reg : Registry} (h : CleanFor st reg) : ResumeOk st reg :=
+  fun l hl d hd hn _ _ => Or.inl (h l hl d hd hn)
+
+/-- **A retry can succeed from the state an interrupted or failed attempt leaves** (single-part layers, i.e. every blob
+    below `minDownloadPartSize` = 100 MB, HEAD answered with the true length): against an honest registry, from every
+    store whose blobs are intact and whose resume state for each missing layer is either empty or a data file + one
+    record that agree with the blob on the completed prefix, `pull` reports success — the remaining bytes are
+    requested from `done` on and the file that is renamed is the blob.  (`retry_can_succeed` is the special case
+    without resume state; the boundary is `stuck_plan_never_recovers`: a record whose size is not the blob's length.) -/
+theorem retry_can_succeed_resume (cfg : Cfg) (hash : Bytes → Digest) (name : Name) (reg : Registry) (st : Store)
+    (hret : 0 < cfg.retries) (hmin : 0 < cfg.minSize) (hmax : 0 < cfg.maxSize)
+    (hreg : HonestReg hash reg) (hinv : BlobInv hash st) (hres : ResumeOk st reg) :
+    (pull cfg hash name reg Scripts.honest st).1 = .ok () := by
+  obtain ⟨s', hdl, hb'⟩ := dlLoop_honest_resume cfg hash reg hret hmin hmax reg.manifest.all
+    ⟨st, { tok := [], nm := 1 }, [], [], false⟩ hreg hinv hres rfl
+  have hpresent : ∀ l ∈ reg.manifest.all, ∀ d, l.digest = .ok d → ∃ c, s'.st.blobs d = some c := by
+    intro l hl d hd
+    obtain ⟨d', c, hd', hc⟩ := dlLoop_ok_present _ hdl l hl
+    rw [hd] at hd'; cases hd'; exact ⟨c, hc⟩
+  have hv : (if cfg.verifyEarly = true then ((R.ok () : Outcome), s'.st)
+      else verifyLoop hash s'.skip reg.manifest.all s'.st) = (.ok (), s'.st) := by
+    split
+    · rfl
+    · exact verifyLoop_honest hash s'.skip reg.manifest.all s'.st hb' hpresent
+  have hdl' : dlLoop cfg hash reg ⟨[], [], [], none⟩ reg.manifest.all ⟨st, { tok := [], nm := 1 }, [], [], false⟩ = (.ok (), s') := hdl
+  show (pull cfg hash name reg ⟨[], [], [], none⟩ st).1 = .ok ()
+  simp only [pull, mrr_pass_dflt, hdl', hv]
+  simp
+
+/-- the caller goes away after the first byte of layer A -/
+def scCan : Scripts := ⟨[], [], [(dA, ⟨[], [], [[.body .honest (some 1) .cancel]]⟩)], none⟩
+/-- every chunk read of layer A is cut after one byte by a connection reset (bytes written, progress rolled back), six times -/
+def scCut : Scripts := ⟨[], [], [(dA, ⟨[], [], [List.replicate 6 (.body .honest (some 1) .reset)]⟩)], none⟩
+
+/-- **Witness / non-vacuity: an interrupted and a failed attempt leave exactly such a state, and the retry succeeds** -/
+theorem interrupted_pull_resumes :
+    let r1 := pull cfgF toyHash 0 regA scCan st0
+    let r2 := pull cfgF toyHash 0 regA Scripts.honest r1.2.1
+    let q1 := pull cfgF toyHash 0 regA scCut st0
+    let q2 := pull cfgF toyHash 0 regA Scripts.honest q1.2.1
+    r1.1 = .err .canceled ∧ r1.2.1.partials dA = ⟨some [1, 0], [⟨0, 2, 1⟩]⟩ ∧ Resume1Ok cA (r1.2.1.partials dA) ∧
+    ¬ CleanFor r1.2.1 regA ∧
+    r2.1 = .ok () ∧ r2.2.1.blobs dA = some cA ∧ r2.2.1.partials dA = Partial.none ∧
+    q1.1 = .err .maxRetries ∧ Resume1Ok cA (q1.2.1.partials dA) ∧ q2.1 = .ok () ∧ q2.2.1.blobs dA = some cA := by
+  have hp : (pull cfgF toyHash 0 regA scCan st0).2.1.partials dA = ⟨some [1, 0], [⟨0, 2, 1⟩]⟩ := by decide
+  refine ⟨by decide, hp, ?_, ?_, by decide, by decide, by decide, by decide, ?_, by decide, by decide⟩
+  · rw [hp]; exact ⟨[1, 0], 1, rfl, by decide, by decide, by decide⟩
+  · intro h
+    have := h ⟨.ok dA, 2, 0⟩ (by decide) dA rfl (by decide)
+    rw [hp] at this
+    cases this
+  · have hq : (pull cfgF toyHash 0 regA scCut st0).2.1.partials dA = ⟨some [1, 0], [⟨0, 2, 0⟩]⟩ := by decide
+    rw [hq]; exact ⟨[1, 0], 0, rfl, by decide, by decide, by decide⟩
+
 /-! ## Histories: any number of pulls, of any names, against a registry that may re-publish in between -/
 
 /-- **A successful pull keeps every OTHER name intact too** (current tree = `verifyEarly`): it installs the served
